@@ -96,7 +96,11 @@ fn main() {
             // deepruns C01 <tier> <seed> <outfile>
             let tier = if args.get(3).map(|s| s == "thorough").unwrap_or(false) { Tier::Thorough } else { Tier::Quick };
             let seed: u64 = args.get(4).and_then(|s| s.parse().ok()).unwrap_or(report::DEFAULT_SEED);
-            props::c01::deepruns_main(tier, seed, args.get(5).map(|s| s.as_str()).unwrap_or("/dev/null"))
+            let out = args.get(5).map(|s| s.as_str()).unwrap_or("/dev/null");
+            match args.get(2).map(|s| s.as_str()) {
+                Some("C05") => props::c05::deepruns_main(tier, seed, out),
+                _ => props::c01::deepruns_main(tier, seed, out),
+            }
         }
         "determinism" => {
             // determinism [quick|thorough] [samples] [ids...]
